@@ -18,6 +18,7 @@ CHECKS.update({
  'C12': dict(level='model_checking', text='Every operator/pair x every legal script: re-subscription x3 vs fresh pipeline, subscription counters, and one operator value applied to three sources in all six orders vs fresh twins.', note=COMMON_NOTE, technique='exhaustive bounded enumeration of scripts, re-subscription histories and application orders (differential against a fresh instance)', ref='§5 C12'),
 })
 CHECKS['C07'] = dict(level='fault_enumeration', text='Fault enumeration on the real code: a fault-free run discovers every user-callback slot of the operator and its invocation count; then every (slot, invocation index, fault kind) is injected, one per execution, plus every notification index of the final observer and every position of the subscribe function; trace-shape oracle (prefix, exactly one matching Error, nothing after), no escaped or goroutine-top panic (the controlled runtime records what would have crashed the process), follow-up subscription usable.', note=COMMON_NOTE+' One fault per execution (no pairs of faults yet); invocation index capped at 3.', technique='exhaustive fault-position enumeration over operator x script x callback slot x invocation index x fault kind', ref='§5 C07')
+CHECKS['C10'] = dict(level='model_checking', text='Explicit-state search over all operation sequences up to a depth on the real subjects, each step compared with an executable sequential definition; plus exhaustive schedule exploration of 2-3 threads issuing operations from several initial states, with a brute-force linearizability check (two linearization points for Unsubscribe, two for async completion) against the same definition.', note='Depth 5/6, 2/3 observers, two values, buffer sizes 1, 2, unlimited; concurrent part: 1-2 operations per thread, deviation bound 2/3; read-only operations (CountObservers etc.) are compared in the sequential part only.', technique='explicit-state search over operation sequences on the implementation + stateless schedule exploration with linearizability oracle', ref='§5 C10')
 NA = {}
 ALL = ['C%02d' % i for i in range(1, 21)]
 m = {
